@@ -49,7 +49,7 @@ CHECKS = {
     'C16': ('proof', 'SOTDMA / ITDMA contracts from M.1371 on SotdmaMessage/ItdmaMessage/SubMessage::parse and placement at bits 149..167 (selector 148) in the seven carrying types.', '4 C16'),
     'C17': ('proof', 'Frame clauses of the parse contract (rejected lines and unfragmented sentences leave the abstract state unchanged) and lemma erase over `step`.', '4 C17'),
     'C18': ('proof', 'Common specification: every contract of every other property is discharged by Verus under the std configuration and again under the alloc '
-            'configuration (same extracted text, cfg-resolved), so the two builds agree on acceptance, error category and every field the contracts determine. The no-allocator build '
+            'configuration (same extracted text, cfg-resolved), so the two builds agree on acceptance, error category and every field the contracts determine (an obligation refuted under exactly one configuration is the violation; refuted under both it belongs to its own property and C18 is undecided). The no-allocator build '
             'is covered only by Kani bounded stand-ins on the real heapless code (unarmor against the same reference for n in {0,3,5}; 2-character text; the hand-written many_m_n::<..,4>(1, ..) against the contract assumed for nom\'s; 21-character text and a full 384-byte reassembly buffer are errors, not panics; 9 per-type layout harnesses under --no-default-features); '
             'the 119/120-byte binary capacity edge is NOT checked (harness does not finish); no Verus run of the no-allocator configuration (DESIGN 0.2 says why).', '0.2 / 4 C18'),
     'C19': ('proof', 'One Verus clause on parse_ais_sentence / parse_nmea_sentence: message_type == sixbit(first payload byte); refuted on the unchanged tree and listed as known finding D4 '
